@@ -19,6 +19,7 @@ SVV == {<<"OU", "1000000000000000000", "2000000000000000">>,
         <<"OU", "1000000000000000000", "27000000000000000">>,     \* 2.7 % x 1.96: capped at 5 % of the adjusted value
         <<"OV", "90000000000000000000", "0">>}
 OVD == {<<"OD", 104000000, 0, 100000000, 0>>}
+VLC == {<<"A4", "A1", "KB1", "BD">>, <<"A4", "A2", "DB1", "BD">>, <<"A4", "A3", "SB1", "BD">>}
 BPV == {<<"A1", "BD">>, <<"A2", "BD">>, <<"A3", "BD">>}
 KBorV == {300000000, 0}
 SBorV == {250, 0}
